@@ -171,3 +171,96 @@ def group_of(expr: ast.AST, gv) -> Optional[int]:
     if isinstance(expr, ast.Name):
         return gv.get(expr.id)
     return None
+
+
+def match_ends(items, data, flags=0, pos=0) -> Set[int]:
+    """End positions of all matches of the item sequence against the constant
+    `data` (bytes or str) when matching starts at `pos` - the regular
+    expression is interpreted over its syntax tree on a literal taken from
+    the source, nothing of the program runs.  Supports literals, classes,
+    categories, ANY, repeats, groups, branches and the ^ $ anchors."""
+    sc = _consts()
+    items = list(items)
+
+    def code(i):
+        c = data[i]
+        return c if isinstance(c, int) else ord(c)
+
+    def m(idx, p):
+        if idx == len(items):
+            return {p}
+        op, av = items[idx]
+        rest = lambda q: m(idx + 1, q)
+        if op == sc.AT:
+            if av in (sc.AT_BEGINNING, sc.AT_BEGINNING_STRING):
+                return rest(p) if p == 0 else set()
+            if av in (sc.AT_END, sc.AT_END_STRING):
+                return rest(p) if p == len(data) else set()
+            return rest(p)
+        if op in (sc.MAX_REPEAT, sc.MIN_REPEAT):
+            lo, hi, sub = av
+            sub = list(sub)
+            out = set()
+            frontier = {p}
+            n = 0
+            seen = set()
+            while True:
+                if n >= lo:
+                    for q in frontier:
+                        out |= rest(q)
+                if n >= hi or not frontier or n > len(data) + 1:
+                    break
+                nxt = set()
+                for q in frontier:
+                    nxt |= match_ends(sub, data, flags, q) if False else \
+                        _sub_ends(sub, q)
+                nxt -= seen if n >= lo else set()
+                seen |= nxt
+                frontier = nxt
+                n += 1
+            return out
+        if op == sc.SUBPATTERN:
+            out = set()
+            for q in _sub_ends(list(av[3]), p):
+                out |= rest(q)
+            return out
+        if op == sc.BRANCH:
+            out = set()
+            for alt in av[1]:
+                for q in _sub_ends(list(alt), p):
+                    out |= rest(q)
+            return out
+        cs = charset((op, av), flags)
+        if cs is None:
+            raise ValueError('unsupported regex item %r' % (op,))
+        if p < len(data) and code(p) in cs:
+            return rest(p + 1)
+        if p < len(data) and code(p) > 255 and op in (
+                sc.NOT_LITERAL, sc.ANY):
+            return rest(p + 1)
+        return set()
+
+    def _sub_ends(sub, p):
+        return match_ends(sub, data, flags, p)
+    # anchors inside sub-sequences see the absolute position
+    return m(0, pos)
+
+
+def all_charsets(items, flags=0):
+    """character sets of every single-character item anywhere in the tree"""
+    sc = _consts()
+    out = []
+    for it in items:
+        op, av = it
+        if op in (sc.MAX_REPEAT, sc.MIN_REPEAT):
+            out += all_charsets(list(av[2]), flags)
+        elif op == sc.SUBPATTERN:
+            out += all_charsets(list(av[3]), flags)
+        elif op == sc.BRANCH:
+            for alt in av[1]:
+                out += all_charsets(list(alt), flags)
+        elif op == sc.AT:
+            continue
+        else:
+            out.append(charset(it, flags))
+    return out
